@@ -50,6 +50,14 @@ def gen_cases(rng, tier):
                 recs.insert(pos, u)
                 w = flat(recs)
                 yield case("req_run", [64], [7], w, rng.choice([[], [1] * len(w)])), ["req", "unknown-type"]
+    # the reserved request id 0 combined with an unknown role on a BeginRequest: rejected with EndRequest(UnknownRole) like any other
+    # unknown role (the body is looked at first), and the connection goes on
+    for role in (0, 4, 9, 65535):
+        for pad in (0, 3, 255):
+            for sched in ([], "ones"):
+                recs = [begin(0, role, 1, pad), record(GETVALUES, 0, gv_body(rng), 0)] + minimal_preamble(5, 1, pairs=[(b"A", b"b")])
+                w = flat(recs)
+                yield case("req_run", [64], [3], w, [1] * len(w) if sched == "ones" else []), ["req", "null-id-unknown-role"]
     # GetValues body split at every offset (1-byte schedule does that); also placed in the stream phase
     for _ in range(60 if quick else 3000):
         body = gv_body(rng)
@@ -95,7 +103,7 @@ def nontrivial(line, tags):
 
 
 def min_classes(tier):
-    return {"unknown-type": 1000, "gv-split": 100, "abort": 80, "str": 250, "gv-tail-spill": 200}
+    return {"unknown-type": 1000, "gv-split": 100, "abort": 80, "str": 250, "gv-tail-spill": 200, "null-id-unknown-role": 24}
 
 
 def expected_req_output(wire, maxc):
